@@ -59,7 +59,12 @@ def check_events(case, dump):
         f = fr[0]
         from harness.impl import dec_pair, norm_pair
         exp = list(norm_pair(*dec_pair(fiat_in_with_fee(ins[row]))))
-        if f["lot"] is not None or f["amt"] != e["amt"] or f["cost"] != [0, 0] or f["proceeds"] != exp:
+        # proceeds = fiat value * amount / amount in 31-digit arithmetic: equal to the fiat value up to the two
+        # roundings proved in C04 (relative 1.1e-30); exact equality would demand more than the property states
+        from decimal import Decimal
+        pv, ev_ = Decimal(f["proceeds"][0]).scaleb(f["proceeds"][1]), Decimal(exp[0]).scaleb(exp[1])
+        close = abs(pv - ev_) <= abs(ev_) * Decimal("2.2e-30")
+        if f["lot"] is not None or f["amt"] != e["amt"] or f["cost"] != [0, 0] or not close:
             bad.append(f"income row {row}: fraction {f} (expected amount {e['amt']}, proceeds {exp}, cost 0, no lot)")
     for ev in by_ev:
         if ev not in want:
